@@ -10,6 +10,7 @@ The layout theorems are stated for the alignments the property quantifies over, 
 `sizeof(size_type) ∈ {1, 2, 4, 8}`; `C17_size_pow2` extends the size bound to every power of two alignment ≥ 16. -/
 namespace AmcVerif.Props.C17
 open AmcVerif.Layout
+set_option linter.unusedSimpArgs false
 
 /-! ## the trait -/
 
@@ -105,10 +106,10 @@ def ValidSizeType (sS : Nat) : Prop := sS ∈ [1, 2, 4, 8]
 instance (sT aT : Nat) : Decidable (ValidElem sT aT) := by unfold ValidElem; infer_instance
 instance (sS : Nat) : Decidable (ValidSizeType sS) := by unfold ValidSizeType; infer_instance
 
-/-- alignment padding a SmallVector may add on top of `sizeof(vector) + N * sizeof(T)`: once to round the union of
-pointer and first element up to 8 bytes, once to round the whole object up to its alignment; both roundings are in
-steps of `alignof T`, so nothing is added for alignments ≥ 8 -/
-def padBound (aT : Nat) : Nat := 2 * (8 - aT)
+/-- alignment padding a SmallVector may add on top of `sizeof(vector) + N * sizeof(T)`: the union of pointer and first
+element is rounded up to 8 bytes and so is the whole object, both in steps of `alignof T`, while the union replaces
+the 8 bytes of vector's pointer: at most `(8 - aT) + (8 - aT) - 8` bytes, nothing for alignments ≥ 4 -/
+def padBound (aT : Nat) : Nat := 8 - 2 * aT
 
 theorem roundUp_of_dvd {x a : Nat} (ha : 0 < a) (h : a ∣ x) : roundUp x a = x := by
   obtain ⟨c, rfl⟩ := h
@@ -142,14 +143,19 @@ theorem C17_ladder_arms (sT aT : Nat) (h0 : 0 < sT) :
     have h2 : (if 8 < aT then aT else 8) = max aT 8 := by simp only [Nat.max_def]; split <;> split <;> omega
     rw [h1, h2]
 
-/-- unfold a concrete member list, decide the `if` of the optional array first, then linear arithmetic -/
+theorem classOf_opt (c : Prop) [Decidable c] (l x : List SA) :
+    classOf (l ++ if c then x else []) = if c then classOf (l ++ x) else classOf l := by
+  split <;> simp
+
+/-- unfold a concrete member list (the caller supplies the fact deciding whether the optional array is there), then
+linear arithmetic -/
 macro "layout_arith" "[" ts:Lean.Parser.Tactic.simpLemma,* "]" : tactic =>
   `(tactic| (
-    simp only [smallVectorSA, smallVectorMembers, fixedCapacityVectorSA, fixedCapacityVectorMembers, vectorSA,
-      vectorMembers, smallVectorBufOffset, fixedCapacityVectorBufOffset, elemWithPtrStorage, elemArray, scalar,
-      kNbSlots, ptrSize, ptrAlign, Nat.reduceDiv, if_false, if_true, $ts,*]
-    (repeat' split) <;>
-    (try simp [classOf, place, placeAt, roundUp, padBound, Nat.max_def]) <;>
+    simp only [smallVectorSA, smallVectorMembers, fixedCapacityVectorSA, fixedCapacityVectorMembers, classOf_opt,
+      if_false, if_true, $ts,*]
+    (try simp [classOf, place, placeAt, roundUp, padBound, vectorSA, vectorMembers, smallVectorBufOffset,
+      fixedCapacityVectorBufOffset, elemWithPtrStorage, elemArray, scalar, kNbSlots, ptrSize, ptrAlign,
+      Nat.max_def, $ts,*]) <;>
     (repeat' split) <;> (try omega)))
 
 /-- N elements that fit in the bytes of a pointer cost nothing: `sizeof(SmallVector<T,N>) = sizeof(vector<T>)` -/
@@ -160,16 +166,18 @@ theorem C17_size_small (sT aT N sS : Nat) (he : ValidElem sT aT) (hs : ValidSize
   · simp [smallVectorSA, hN]
   have hle : sT ≤ N * sT := Nat.le_mul_of_pos_left sT (by omega)
   have h8 : sT ≤ 8 := by omega
-  have hk : ¬ max 1 (8 / sT) < N := by
+  have hk : ¬ kNbSlots sT < N := by
     have : N ≤ 8 / sT := (Nat.le_div_iff_mul_le h0).2 h
-    omega
+    simp only [kNbSlots, ptrSize]; omega
   have ha8 : aT ≤ 8 := Nat.le_trans (Nat.le_of_dvd h0 hd) h8
   have hm : max sT 8 = 8 := by omega
   simp only [ValidSizeType, List.mem_cons, List.mem_nil_iff, or_false] at ha hs
   rcases ha with rfl | rfl | rfl | rfl | rfl <;> rcases hs with rfl | rfl | rfl | rfl <;>
     first
     | (exfalso; omega)
-    | layout_arith [hN, hk, hm]
+    | (simp only [smallVectorSA, smallVectorMembers, classOf_opt, hN, hk, if_false]
+       simp [classOf, place, placeAt, roundUp, vectorSA, vectorMembers, elemWithPtrStorage, scalar, ptrSize,
+         ptrAlign, hm])
 
 /-- otherwise a SmallVector adds no more than the N element slots plus alignment padding -/
 theorem C17_size_large (sT aT N sS : Nat) (he : ValidElem sT aT) (hs : ValidSizeType sS) (h2 : 8 < N * sT) :
@@ -181,26 +189,27 @@ theorem C17_size_large (sT aT N sS : Nat) (he : ValidElem sT aT) (hs : ValidSize
   simp only [ValidSizeType, List.mem_cons, List.mem_nil_iff, or_false] at ha hs
   by_cases h9 : 8 < sT
   · -- the union holds one element
-    have hk : max 1 (8 / sT) = 1 := by simp [Nat.div_eq_of_lt h9]
-    have hm : max sT 8 = sT := by omega
+    have hk : kNbSlots sT = 1 := by simp [kNbSlots, ptrSize, Nat.div_eq_of_lt h9]
     by_cases h1 : 1 < N
     · have hp : (N - 1) * sT = N * sT - sT := by rw [Nat.sub_mul]; simp
       have hge : 2 * sT ≤ N * sT := Nat.mul_le_mul_right sT h1
       have hdp : aT ∣ N * sT := Nat.dvd_trans hd (Nat.dvd_mul_left sT N)
       generalize N * sT = p at *
       rcases ha with rfl | rfl | rfl | rfl | rfl <;> rcases hs with rfl | rfl | rfl | rfl <;>
-        layout_arith [hN, hes, hk, hm, h1, hp]
+        layout_arith [hN, hes, hk, h1, hp]
     · have : N = 1 := by omega
       subst this
       rcases ha with rfl | rfl | rfl | rfl | rfl <;> rcases hs with rfl | rfl | rfl | rfl <;>
-        layout_arith [hes, hk, hm, Nat.lt_irrefl, Nat.one_ne_zero]
+        layout_arith [hes, hk, Nat.lt_irrefl, Nat.one_ne_zero]
   · -- the union holds 8 / sizeof(T) elements; sizeof(T) is one of 1..8
     have h8 : sT = 1 ∨ sT = 2 ∨ sT = 3 ∨ sT = 4 ∨ sT = 5 ∨ sT = 6 ∨ sT = 7 ∨ sT = 8 := by omega
-    rcases h8 with rfl | rfl | rfl | rfl | rfl | rfl | rfl | rfl <;>
+    by_cases hkN : kNbSlots sT < N <;> (have hkN' := hkN) <;>
+      rcases h8 with rfl | rfl | rfl | rfl | rfl | rfl | rfl | rfl <;>
       rcases ha with rfl | rfl | rfl | rfl | rfl <;>
       first
       | (exfalso; omega)
-      | (rcases hs with rfl | rfl | rfl | rfl <;> layout_arith [hN, hes])
+      | (rcases hs with rfl | rfl | rfl | rfl <;>
+          (simp [kNbSlots, ptrSize] at hkN' <;> layout_arith [hN, hes, hkN]))
 
 /-- C17, size sentence: `SmallVector<T,N>` is no larger than `amc::vector<T>` whenever N elements fit in the bytes of a
 pointer and otherwise adds no more than the N element slots plus alignment padding -/
@@ -212,17 +221,115 @@ theorem C17_size (sT aT N sS : Nat) (he : ValidElem sT aT) (hs : ValidSizeType s
 -- non-vacuity: hypotheses are satisfiable, both branches occur, the padding bound is attained and is needed
 example : ValidElem 3 1 ∧ ValidElem 24 8 ∧ ValidElem 16 16 ∧ ValidSizeType 4 := by decide
 example : (smallVectorSA 1 1 8 4).size = 16 ∧ (vectorSA 4).size = 16 := by decide          -- SmallVector<char,8>
-example : (smallVectorSA 9 1 2 4).size = 48 ∧ (vectorSA 4).size + 2 * 9 + padBound 1 = 48 := by decide
+example : (smallVectorSA 9 1 2 4).size = 40 ∧ (vectorSA 4).size + 2 * 9 + padBound 1 = 40 := by decide
 example : (smallVectorSA 16 16 3 4).size = 64 ∧ (vectorSA 4).size + 3 * 16 + padBound 16 = 64 := by decide
 example : ¬ ((smallVectorSA 9 1 2 4).size ≤ (vectorSA 4).size + 2 * 9) := by decide
 
 /-- the general statement for every power of two alignment (over-aligned element types included); the padding
-bound for alignments above 16 is the part of the alignment the 16 byte header of `vector` does not cover -/
+bound for alignments above 16 is the part of the alignment unit that the 16 byte header of `vector` does not cover -/
 def SizeStmt : Prop :=
   ∀ sT aT N sS : Nat, 0 < sT → (∃ k, aT = 2 ^ k) → aT ∣ sT → ValidSizeType sS →
     (N * sT ≤ 8 → (smallVectorSA sT aT N sS).size ≤ (vectorSA sS).size)
     ∧ (8 < N * sT → (smallVectorSA sT aT N sS).size
           ≤ (vectorSA sS).size + N * sT + (if aT ≤ 16 then padBound aT else aT - 16))
+
+theorem roundUp_eq_self_of_le {x a : Nat} (hx : 0 < x) (h : x ≤ a) : roundUp x a = a := by
+  unfold roundUp
+  have h1 : (x + a - 1) / a = 1 := by
+    apply Nat.div_eq_of_lt_le <;> omega
+  rw [h1]; simp
+
+theorem pow2_cases (k : Nat) : 2 ^ k ∣ 8 ∨ 16 ∣ 2 ^ k := by
+  by_cases h : k ≤ 3
+  · left; exact Nat.pow_dvd_pow 2 h
+  · right; exact Nat.pow_dvd_pow 2 (show 4 ≤ k by omega)
+
+theorem dvd8 (a : Nat) (h : a ∣ 8) : a = 1 ∨ a = 2 ∨ a = 4 ∨ a = 8 := by
+  have hle : a ≤ 8 := Nat.le_of_dvd (by decide) h
+  have : ∀ b, b ≤ 8 → b ∣ 8 → (b = 1 ∨ b = 2 ∨ b = 4 ∨ b = 8) := by decide
+  exact this a hle h
+
+/-- closed form for over-aligned element types (alignment a multiple of 16): header rounded up to one alignment
+unit, then the N slots -/
+theorem sv_overaligned (sT A N sS : Nat) (h0 : 0 < sT) (hA : 16 ∣ A) (hApos : 0 < A) (hd : A ∣ sT) (hs : ValidSizeType sS)
+    (hN : 0 < N) : smallVectorSA sT A N sS = ⟨A + N * sT, A⟩ := by
+  have hA16 : 16 ≤ A := Nat.le_of_dvd hApos hA
+  have hsT : A ≤ sT := Nat.le_of_dvd h0 hd
+  have hk : kNbSlots sT = 1 := by simp [kNbSlots, ptrSize, Nat.div_eq_of_lt (show 8 < sT by omega)]
+  have hm1 : max sT 8 = sT := by omega
+  have hm2 : max A 8 = A := by omega
+  have hew : elemWithPtrStorage sT A = ⟨sT, A⟩ := by
+    have := elemStorage_eq h0 hApos hd
+    simpa [elemWithPtrStorage, elemStorage, ptrSize, ptrAlign, hm1, hm2] using this
+  have hes := elemStorage_eq h0 hApos hd
+  have hN0 : N ≠ 0 := by omega
+  have hr0 : ∀ s, 0 < s → roundUp 0 s = 0 := fun s hs => roundUp_of_dvd hs (Nat.dvd_zero s)
+  simp only [ValidSizeType, List.mem_cons, List.mem_nil_iff, or_false] at hs
+  have hmax : ∀ s, s ≤ 8 → max s A = A := fun s h => by omega
+  have e1 : roundUp 2 A = A := roundUp_eq_self_of_le (by omega) (by omega)
+  have e2 : roundUp 4 A = A := roundUp_eq_self_of_le (by omega) (by omega)
+  have e3 : roundUp 8 A = A := roundUp_eq_self_of_le (by omega) (by omega)
+  have e4 : roundUp 16 A = A := roundUp_eq_self_of_le (by omega) (by omega)
+  have e5 : roundUp (A + sT) A = A + sT := roundUp_of_dvd hApos (Nat.dvd_add (Nat.dvd_refl A) hd)
+  have hd3 : A ∣ A + N * sT := Nat.dvd_add (Nat.dvd_refl A) (Nat.dvd_trans hd (Nat.dvd_mul_left sT N))
+  have e6 : roundUp (A + N * sT) A = A + N * sT := roundUp_of_dvd hApos hd3
+  have hmx : max (A + N * sT) 1 = A + N * sT := by omega
+  have r1 : roundUp 1 1 = 1 := by decide
+  have r2 : roundUp 2 2 = 2 := by decide
+  have r4 : roundUp 4 4 = 4 := by decide
+  have r8 : roundUp 8 8 = 8 := by decide
+  by_cases h1 : 1 < N
+  · have hsum : A + sT + (N - 1) * sT = A + N * sT := by
+      have : N = (N - 1) + 1 := by omega
+      conv => rhs; rw [this, Nat.add_mul]
+      omega
+    rcases hs with rfl | rfl | rfl | rfl <;>
+      simp only [smallVectorSA, smallVectorMembers, classOf_opt, hN0, hk, h1, if_false, if_true, hew, elemArray, hes] <;>
+      simp [classOf, place, placeAt, scalar, hr0, e1, e2, e3, e4, e5, hsum, hmx, e6, hmax, r1, r2, r4, r8]
+  · have hN1 : N = 1 := by omega
+    subst hN1
+    have hmx' : max (A + sT) 1 = A + sT := by omega
+    rcases hs with rfl | rfl | rfl | rfl <;>
+      simp only [smallVectorSA, smallVectorMembers, classOf_opt, hk, Nat.lt_irrefl, Nat.one_ne_zero, if_false, hew] <;>
+      simp [classOf, place, placeAt, scalar, hr0, e1, e2, e3, e4, e5, hmx', hmax, r1, r2, r4, r8]
+
+theorem C17_size_pow2 : SizeStmt := by
+  intro sT aT N sS h0 hk hd hs
+  obtain ⟨k, rfl⟩ := hk
+  rcases pow2_cases k with h | h
+  · have hv : ValidElem sT (2 ^ k) := by
+      refine ⟨h0, ?_, hd⟩
+      rcases dvd8 _ h with e | e | e | e <;> simp [e]
+    have hle : 2 ^ k ≤ 16 := by rcases dvd8 _ h with e | e | e | e <;> omega
+    simpa [hle] using C17_size sT (2 ^ k) N sS hv hs
+  · have hApos : 0 < 2 ^ k := Nat.pos_of_ne_zero (by intro e; rw [e] at h; omega)
+    have hA16 : 16 ≤ 2 ^ k := Nat.le_of_dvd hApos h
+    have hsT : 2 ^ k ≤ sT := Nat.le_of_dvd h0 hd
+    have hvec : 16 ≤ (vectorSA sS).size := by
+      simp only [ValidSizeType, List.mem_cons, List.mem_nil_iff, or_false] at hs
+      rcases hs with rfl | rfl | rfl | rfl <;> decide
+    constructor
+    · intro hN
+      have : N = 0 := by
+        rcases Nat.eq_zero_or_pos N with e | e
+        · exact e
+        · have : sT ≤ N * sT := Nat.le_mul_of_pos_left sT e
+          omega
+      simp [smallVectorSA, this]
+    · intro hN
+      have hN0 : 0 < N := by
+        rcases Nat.eq_zero_or_pos N with e | e
+        · simp [e] at hN
+        · exact e
+      rw [sv_overaligned sT (2 ^ k) N sS h0 h hApos hd hs hN0]
+      show 2 ^ k + N * sT ≤ _
+      split
+      · have : 2 ^ k = 16 := by omega
+        simp only [padBound]; omega
+      · omega
+
+-- non-vacuity: a 32 byte aligned element type; the bound is attained
+example : (smallVectorSA 32 32 2 4).size = 96 ∧ (vectorSA 4).size + 2 * 32 + (32 - 16) = 96 := by decide
 
 /-- the inline buffer really holds N elements: from the offset of the first slot, N * sizeof(T) bytes lie inside
 the object (SmallVector, N ≥ 1) -/
@@ -234,24 +341,25 @@ theorem C17_inline_fits_small (sT aT N sS : Nat) (he : ValidElem sT aT) (hs : Va
   have hes := elemStorage_eq h0 hapos hd
   simp only [ValidSizeType, List.mem_cons, List.mem_nil_iff, or_false] at ha hs
   by_cases h9 : 8 < sT
-  · have hk : max 1 (8 / sT) = 1 := by simp [Nat.div_eq_of_lt h9]
-    have hm : max sT 8 = sT := by omega
+  · have hk : kNbSlots sT = 1 := by simp [kNbSlots, ptrSize, Nat.div_eq_of_lt h9]
     by_cases h1 : 1 < N
     · have hp : (N - 1) * sT = N * sT - sT := by rw [Nat.sub_mul]; simp
       have hge : 2 * sT ≤ N * sT := Nat.mul_le_mul_right sT h1
       generalize N * sT = p at *
       rcases ha with rfl | rfl | rfl | rfl | rfl <;> rcases hs with rfl | rfl | rfl | rfl <;>
-        layout_arith [hN0, hes, hk, hm, h1, hp]
+        layout_arith [hN0, hes, hk, h1, hp]
     · have : N = 1 := by omega
       subst this
       rcases ha with rfl | rfl | rfl | rfl | rfl <;> rcases hs with rfl | rfl | rfl | rfl <;>
-        layout_arith [hes, hk, hm, Nat.lt_irrefl, Nat.one_ne_zero]
+        layout_arith [hes, hk, Nat.lt_irrefl, Nat.one_ne_zero]
   · have h8 : sT = 1 ∨ sT = 2 ∨ sT = 3 ∨ sT = 4 ∨ sT = 5 ∨ sT = 6 ∨ sT = 7 ∨ sT = 8 := by omega
-    rcases h8 with rfl | rfl | rfl | rfl | rfl | rfl | rfl | rfl <;>
+    by_cases hkN : kNbSlots sT < N <;> (have hkN' := hkN) <;>
+      rcases h8 with rfl | rfl | rfl | rfl | rfl | rfl | rfl | rfl <;>
       rcases ha with rfl | rfl | rfl | rfl | rfl <;>
       first
       | (exfalso; omega)
-      | (rcases hs with rfl | rfl | rfl | rfl <;> layout_arith [hN0, hes])
+      | (rcases hs with rfl | rfl | rfl | rfl <;>
+          (simp [kNbSlots, ptrSize] at hkN' <;> layout_arith [hN0, hes, hkN]))
 
 /-- FixedCapacityVector: header, `max N 1` slots, and less than one alignment unit of padding — nothing else -/
 theorem C17_fcv_size (sT aT N sS : Nat) (he : ValidElem sT aT) (hs : ValidSizeType sS) :
@@ -276,13 +384,16 @@ theorem C17_fcv_size (sT aT N sS : Nat) (he : ValidElem sT aT) (hs : ValidSizeTy
     rcases ha with rfl | rfl | rfl | rfl | rfl <;> rcases hs with rfl | rfl | rfl | rfl <;>
       (refine ⟨?_, ?_, ?_⟩ <;> layout_arith [hes, h1])
 
-/-- alignment of a SmallVector: that of the union of a pointer and an element -/
-theorem C17_small_align (sT aT N sS : Nat) (he : ValidElem sT aT) (hs : ValidSizeType sS) :
+/-- alignment of a SmallVector with inline elements: that of the union of a pointer and an element
+(`SmallVector<T,0>` is `vector<T>`, aligned as a pointer whatever `T` is) -/
+theorem C17_small_align (sT aT N sS : Nat) (he : ValidElem sT aT) (hs : ValidSizeType sS) (hN0 : 0 < N) :
     (smallVectorSA sT aT N sS).align = max aT 8 := by
   obtain ⟨h0, ha, hd⟩ := he
   simp only [ValidSizeType, List.mem_cons, List.mem_nil_iff, or_false] at ha hs
-  rcases ha with rfl | rfl | rfl | rfl | rfl <;> rcases hs with rfl | rfl | rfl | rfl <;>
-    layout_arith []
+  have hN : N ≠ 0 := by omega
+  by_cases hkN : kNbSlots sT < N <;>
+    rcases ha with rfl | rfl | rfl | rfl | rfl <;> rcases hs with rfl | rfl | rfl | rfl <;>
+    layout_arith [hN, hkN]
 
 -- non-vacuity
 example : smallVectorBufOffset 1 4 + 3 * 9 ≤ (smallVectorSA 9 1 3 4).size := by decide
@@ -302,12 +413,12 @@ theorem C17_sizetype_smallest (N : Nat) (hN : N < 2 ^ 64) :
   have u4 : umax 4 = 4294967295 := by decide
   have u8 : umax 8 = 18446744073709551615 := by decide
   refine ⟨?_, ?_, ?_⟩
-  · unfold smallestSizeType; repeat' split <;> simp
-  · unfold smallestSizeType; repeat' split <;> omega
+  · unfold smallestSizeType; (repeat' split) <;> simp
+  · unfold smallestSizeType; (repeat' split) <;> omega
   · intro b hb hle
     simp only [List.mem_cons, List.mem_nil_iff, or_false] at hb
     unfold smallestSizeType
-    rcases hb with rfl | rfl | rfl | rfl <;> repeat' split <;> omega
+    rcases hb with rfl | rfl | rfl | rfl <;> (repeat' split) <;> omega
 
 -- non-vacuity: the boundaries of the property
 example : smallestSizeType 255 = 1 ∧ smallestSizeType 256 = 2 ∧ smallestSizeType 65535 = 2
